@@ -112,6 +112,22 @@ def _observe():
         out["runs"].append(dict(n=n, want=want, N=N, ok=res == list(range(N)),
                                 rows=[[int(r[0]), int(r[1]), int(r[2]), float(r[3]), float(r[4])] for r in rows], caller=caller))
 
+    # --- two overlapping calls inside one context block: a generator call with n1 workers is alive while a second call
+    #     asks for n2 < n1 workers
+    if cfg.get("overlap_ctx") and "overlap" not in out:
+        import joblib as _j
+        n1, n2 = cfg["overlap_ctx"]["n1"], cfg["overlap_ctx"]["n2"]
+        logf = os.path.join(logdir, "overlap.log")
+        with _j.parallel_config(backend=cfg["overlap_ctx"]["backend"]):
+            g = Parallel(n_jobs=n1, return_as="generator", batch_size=1)(delayed(time.sleep)(0.01) for _ in range(300))
+            next(g)
+            N = 4 * n2 + 2
+            res = Parallel(n_jobs=n2, batch_size=1)(delayed(c15_tasks.timed)(i, logf, 0.04, 0) for i in range(N))
+            g.close()
+        rows = [l.split() for l in open(logf).read().splitlines()]
+        out["overlap"] = dict(n1=n1, n2=n2, N=N, ok=res == list(range(N)), backend=cfg["overlap_ctx"]["backend"],
+                              rows=[[int(r[0]), int(r[1]), int(r[2]), float(r[3]), float(r[4])] for r in rows])
+
     # --- nesting
     if cfg.get("nest"):
         logf = os.path.join(logdir, "nest.log")
